@@ -9,6 +9,7 @@ def run(ctx):
     vlib.mc(ctx, "MC_Helpers", "MC_Helpers_c03re.cfg", timeout=1800)  # blocked watchers across a re-creation
     vlib.mc(ctx, "MC_Helpers", "MC_Helpers_c03fins.cfg", timeout=1800)  # three parties' finalizers after an earlier removal
     helperlib.run(ctx, "C03", ["GenHelpers_C03.cfg", "GenHelpers_C03re.cfg", "GenHelpers_C03fins.cfg"], helperlib.C03_WHATS, 600 if quick else 12000)
+    helperlib.finalizer_threads(ctx, "C03", quick)
     ctx.assumptions += [
         "interleavings are at the granularity of underlying CoreState calls and watch deliveries (gating proxy)",
         "liveness (TadCompletes) is model-checked; on the code a missed wake-up shows as a blocked call at the quiescent end",
